@@ -19,12 +19,15 @@ from . import ir
 from .ir import INT_RANGES, INT_BITS, pl_local, pl_proj, op_place, op_const
 
 EMPTY = frozenset()
+RET_WIDEN_AFTER = 10   # return summaries legitimately grow over several interprocedural rounds (parameters settle first)
 WIDEN_AFTER = 3
 W = "W!"   # marker carried in the taint set: the interval was produced by widening (loop / summary), i.e. it is an
            # artefact of the abstraction and not positive evidence about attacker-controlled values
 WSET = frozenset([W])
 U = "U!"   # marker: value of unknown origin/range (foreign call result, run-time length, iterator item)
 USET = frozenset([U])
+UR = "UR!"  # marker: the range of this value was computed from an operand of unknown range
+UR_SET = frozenset([UR])
 REL = -2   # state key holding a frozenset of (a, b) facts: local a <= local b (single-definition integer locals)
 
 
@@ -252,7 +255,7 @@ class Analysis:
         old = self.ret.get(fid)
         new = vjoin(old, v)
         if new != old:
-            if old is not None and new[0] is not None and self._bump(("r", fid)) > WIDEN_AFTER:
+            if old is not None and new[0] is not None and self._bump(("r", fid)) > RET_WIDEN_AFTER:
                 t = top_of(ty)
                 new = (t[0], t[1], new[2] | WSET, False) if t[0] is not None else new
             self.ret[fid] = new
@@ -300,6 +303,8 @@ class Analysis:
                     ty = f.local_ty(i)
                     t = top_of(ty)
                     taint = EMPTY
+                    if f.kind == "closure" and i >= 2:
+                        taint = USET        # handed over by library code (fold, map, ..): unknown, not "constants only"
                     if self.api_taint and f.kind != "closure" and f.local_name(i) != "self":
                         seq = ("[" in ty) or ("Vec<" in ty) or ty.endswith("str") or ("String" in ty)
                         taint = frozenset(["%s:%s:%s" % ("AS" if seq else "A", f.id, f.local_name(i) or i)])
@@ -726,6 +731,12 @@ class FnPass:
         checked = op.endswith("WithOverflow")
         base = op[:-12] if checked else op
         base = base.replace("Unchecked", "")
+        if base in ("Add", "Mul", "Shl"):
+            # the upper end of the result is only as good as the operand of unknown range (a run-time length, an iterator item)
+            # that took part in it: remember that, so that a size derived from it is not presented as attacker-chosen
+            for v_ in (va, vb):
+                if U in v_[2] and not any(x.startswith("B:") for x in v_[2]) and v_[1] is not None and v_[1] >= 2 ** 31:
+                    taint = taint | UR_SET
         inlen = False
         res = None
         if base == "Add":
@@ -1379,6 +1390,10 @@ class FnPass:
             if v is None:
                 if fn.argc > 0 and not pin:
                     return
+                # a parameter no analysed call site supplies (closure arguments handed over by library code such as fold): its
+                # value is unknown, which is not the same as "derived from constants only"
+                t_ = top_of(fn.local_ty(i))
+                init[i] = (t_[0], t_[1], USET, False)
                 continue
             init[i] = v
         prel = an.param_rel.get(fn.id)
@@ -1781,6 +1796,24 @@ class FnPass:
                     else:
                         lo, hi = tlo - 1, thi + 1
                     status = "safe" if (lo >= tlo and hi <= thi) else "unsafe"
+                    if status == "unsafe":
+                        # the overflow must not hinge on an operand whose range is simply unknown (no byte source of its own,
+                        # e.g. the length of an internal buffer): would the operation still overflow with that operand at its
+                        # lower bound?  if not, there is no evidence, only ignorance
+                        def own_unknown(v):
+                            return (U in v[2]) and not any(x.startswith("B:") for x in v[2])
+                        if own_unknown(a) or own_unknown(c):
+                            a2 = (a[0], a[0]) if own_unknown(a) else (a[0], a[1])
+                            c2 = (c[0], c[0]) if own_unknown(c) else (c[0], c[1])
+                            if opn == "Add":
+                                lo2, hi2 = a2[0] + c2[0], a2[1] + c2[1]
+                            elif opn == "Sub":
+                                lo2, hi2 = a2[0] - c2[1], a2[1] - c2[0]
+                            else:
+                                cs2 = [a2[0] * c2[0], a2[0] * c2[1], a2[1] * c2[0], a2[1] * c2[1]]
+                                lo2, hi2 = min(cs2), max(cs2)
+                            if lo2 >= tlo and hi2 <= thi:
+                                status = "undecided"
         elif kind == "BoundsCheck":
             okind = "bounds"
             ln, ix = vals[0], vals[1]
@@ -2046,8 +2079,11 @@ class FnPass:
         elif result[0] is None:
             lo, hi = INT_RANGES[pt]
             result = (lo, hi, result[2], False)
+        if callee and "FromResidual" in callee and pt is not None:
+            # `?` on the error path: the value built from the residual is an Err / None, it carries no payload
+            result = ("bot", "bot", result[2], False)
         if isinstance(dest, int):
-            if dest in self.escaped and pt is not None:
+            if dest in self.escaped and pt is not None and result[0] != "bot":
                 lo, hi = INT_RANGES[pt]
                 result = (lo, hi, result[2], False)
             if result == self.default(dest):
@@ -2350,6 +2386,8 @@ class FnPass:
                         status = "safe"
                     elif n[3]:
                         status = "safe"
+                    elif UR in n[2]:
+                        status = "undecided"     # the size was computed from something of unknown range (a run-time length, ..)
                     else:
                         status = "unsafe"
                 self.oblig(b, "alloc", callee.rsplit("::", 1)[-1], status, [(self.op_label(args[idx]), n[0], n[1]), ("elem_size", esz, esz)],
